@@ -998,7 +998,8 @@ def r8_6_password_taint(ctx, prog, rule="R8.6"):
             for pl in items:
                 for e in pl["p"]:
                     if e["k"] == "field" and e.get("name") == "password" and e.get("adt", "").endswith(("LongTermCredentialClient", "StunClientParameters")):
-                        readers.setdefault(e["adt"].split("::")[-1], set()).add(b.path)
+                        from ..absint import owning_functions
+                        readers.setdefault(e["adt"].split("::")[-1], set()).update(owning_functions(prog, b))
     lt_readers = readers.get("LongTermCredentialClient", set())
     ok = lt_readers <= {LT + "::process_error_response", "<stun_agent::lt_cred_mech::LongTermCredentialClient as std::fmt::Debug>::fmt"}
     # Debug derive prints the password field: flag separately (it is not the wire)
